@@ -8,7 +8,7 @@ from checks import ops, hl
 def stop_positions(rng, db, root, n, quick):
     """k values (1-based row counts) that matter structurally: every k for small results; otherwise the
     rows around entries stored in interior pages, every row of leaves that are right-most children, leaf ends"""
-    if n <= (150 if quick else 1200):
+    if n <= (150 if quick else 800):
         return list(range(1, n + 1)), {"all": n}
     leaves, interior = sqlfmt.leaf_layout(db.data, root, db.page_size)
     ks, kinds = set([1, 2, n - 1, n]), {"interior": 0, "rightmost_leaf_rows": 0, "leaf_end": 0}
@@ -23,7 +23,21 @@ def stop_positions(rng, db, root, n, quick):
     for start, end, r, _ in leaves:
         if not r and rng.random() < (0.05 if quick else 0.5):
             ks.add(end); ks.add(end + 1); kinds["leaf_end"] += 1
-    return sorted(k for k in ks if 1 <= k <= n), kinds
+    ks = sorted(k for k in ks if 1 <= k <= n)
+    # a stop after k rows costs k rows of output on both sides: keep the total per tree bounded
+    budget = 60000 if quick else 600000
+    if sum(ks) > budget:
+        keep = set(ks[:3] + ks[-3:])
+        rest = [k for k in ks if k not in keep]
+        rng.shuffle(rest)
+        tot = sum(keep)
+        for k in rest:
+            if tot + k > budget:
+                continue
+            keep.add(k); tot += k
+        kinds["dropped_for_budget"] = len(ks) - len(keep)
+        ks = sorted(keep)
+    return ks, kinds
 
 
 def check(run):
@@ -53,7 +67,7 @@ def check(run):
             for k in ks:
                 cid = "%d/%s/%s/%d" % (i, name, op, k)
                 lines.append((cid, "%s %d %d" % (op, root, k)))
-                meta[cid] = (db, rows[:k] + ["end stop"], "%s(%s) stop after %d" % (op, name, k))
+                meta[cid] = (db, ("rows", rows, 0, k), "%s(%s) stop after %d" % (op, name, k))
             # the high level SelectDone on tables
             if table and dumps.get((i, table)):
                 t = db.tables[table]
@@ -78,7 +92,7 @@ def check(run):
                     for k in range(1, min(40, n - first) + 1):
                         cid = "%d/%s/imin/%d/%d" % (i, name, p, k)
                         lines.append((cid, "imin %d %d %s" % (root, k, kt)))
-                        meta[cid] = (db, rows[first:first + k] + ["end stop"], "ScanMin(%s, %s) stop after %d" % (name, kt, k))
+                        meta[cid] = (db, ("rows", rows, first, k), "ScanMin(%s, %s) stop after %d" % (name, kt, k))
                     pk = [(r[c], flags[c][0], flags[c][1]) for c in range(1)]   # one-column prefix: a run of equal entries
                     kp = sqlcmp.show_key(pk)
                     f1 = next(j for j in range(n) if sqlcmp.not_less(pk, recs[j]))
@@ -86,7 +100,7 @@ def check(run):
                     for k in range(1, min(25, len(run_)) + 1):
                         cid = "%d/%s/ieq/%d/%d" % (i, name, p, k)
                         lines.append((cid, "ieq %d %d %s" % (root, k, kp)))
-                        meta[cid] = (db, rows[f1:f1 + k] + ["end stop"], "ScanEq(%s, %s) stop after %d" % (name, kp, k))
+                        meta[cid] = (db, ("rows", rows, f1, k), "ScanEq(%s, %s) stop after %d" % (name, kp, k))
                     last = recs[min(n - 1, first + 30)]
                     k2 = sqlcmp.show_key([(last[c], flags[c][0], flags[c][1]) for c in range(min(len(last), len(flags)))])
                     end = min(n - 1, first + 30)
@@ -95,7 +109,7 @@ def check(run):
                         lines.append((cid, "irange %d %d %s %s" % (root, k, kt, k2)))
                         meta[cid] = (db, None, "ScanRange(%s) stop after %d" % (name, k))
                         meta[cid] = (db, ("rangeprefix", first, k), "ScanRange(%s, %s, %s) stop after %d" % (name, kt, k2, k))
-    res, impl, model = ops.run_cmds("c17-stops", lines, timeout=2400)
+    res, impl, model = ops.run_cmds("c17-stops", lines, timeout=2400, shards=8)
     for cid, cmd in lines:
         if cid not in meta:
             continue
@@ -104,6 +118,8 @@ def check(run):
         i, m = impl.get(cid), model.get(cid)
         if exp is None:
             pass
+        elif isinstance(exp, tuple) and exp[0] == "rows":
+            exp = exp[1][exp[2]:exp[2] + exp[3]] + ["end stop"]
         elif isinstance(exp, tuple) and exp[0] == "prefix":
             fullr = [l for l in (impl.get(exp[1]) or []) if l.startswith("row ")]
             exp = fullr[:exp[2]] + ["end stop", hl.LOCKS]
